@@ -208,7 +208,12 @@ func c09Run(tb rapid.TB, c c09Case) {
 			w = waitFor(func() bool { return hasEvent(k, "W", func(e vEvent) bool { return e.Pkt.Type == rtConnect }) })
 		case "connected":
 			w = waitFor(func() bool {
-				return hasEvent(k, "STATE", func(e vEvent) bool { return strings.HasPrefix(e.Note, "Active") })
+				for _, e := range log.snapshot() {
+					if e.Conn >= k && e.Kind == "STATE" && strings.HasPrefix(e.Note, "Active") {
+						return true
+					}
+				}
+				return false
 			})
 		case "waiting":
 			// attempt k-1 has ended: the loop is (about to be) waiting before attempt k
@@ -256,7 +261,14 @@ func c09Run(tb rapid.TB, c c09Case) {
 	} else {
 		n := len(c.Attempts)
 		w := waitFor(func() bool {
-			return hasEvent(n+1, "STATE", func(e vEvent) bool { return strings.HasPrefix(e.Note, "Active") })
+			// a connection beyond the scripted attempts is up (normally attempt n+1; a later one if a
+			// connect timeout expired under load)
+			for _, e := range log.snapshot() {
+				if e.Conn > n && e.Kind == "STATE" && strings.HasPrefix(e.Note, "Active") {
+					return true
+				}
+			}
+			return false
 		})
 		if w == "stuck" {
 			fail("the reconnect loop went idle after %d of %d scripted attempts: no redial after an unexpected end\n%s", d.dialCount(), n, vGoroutineDump())
